@@ -115,8 +115,12 @@ class Lifter(ast.NodeTransformer):
 
 
 class _PkgView:
-    """Wraps a real package/module so that submodules that have been lifted
-    resolve to their lifted version when imported from lifted code."""
+    """Wraps a real (unlifted) package/module as seen from lifted code:
+
+    * submodules that have been lifted resolve to their lifted version;
+    * names the module merely re-exports from a lifted module (``from dulwich.repo import RefsContainer`` where
+      RefsContainer lives in the lifted dulwich.refs) resolve to the lifted object, so that base classes and helper
+      functions of lifted code are the lifted ones."""
 
     def __init__(self, real, lifted):
         self.__dict__["_real"] = real
@@ -129,8 +133,18 @@ class _PkgView:
         if full in lifted:
             return lifted[full]
         v = getattr(real, name)
-        if isinstance(v, types.ModuleType) and any(k.startswith(v.__name__ + ".") for k in lifted):
-            return _PkgView(v, lifted)
+        if isinstance(v, types.ModuleType):
+            if v.__name__ in lifted:
+                return lifted[v.__name__]
+            if any(k.startswith(v.__name__ + ".") for k in lifted):
+                return _PkgView(v, lifted)
+            return v
+        home = getattr(v, "__module__", None)
+        if isinstance(home, str) and home in lifted and home != real.__name__:
+            n = getattr(v, "__name__", None)
+            src = sys.modules.get(home)
+            if n and src is not None and getattr(src, n, None) is v and hasattr(lifted[home], n):
+                return getattr(lifted[home], n)
         return v
 
 
@@ -150,9 +164,7 @@ def _make_import(lifted):
         if fromlist:
             if absname in lifted:
                 return lifted[absname]
-            if any(k.startswith(absname + ".") for k in lifted):
-                return _PkgView(mod, lifted)
-            return mod
+            return _PkgView(mod, lifted)
         # plain "import a.b.c" binds the top-level package
         top = absname.partition(".")[0]
         if any(k == top or k.startswith(top + ".") for k in lifted):
